@@ -221,7 +221,8 @@ theorem addRr_item (hint : Hint) (owner : WName) (ty cls ttl : Nat) (rd : List U
     (h : addRr hint owner ty cls ttl rd s = (.ok (), s')) :
     ∃ k, Item s' s.cursor k ∧ s.cursor + k + 10 ≤ s'.cursor ∧
       be16 s'.octets (s.cursor + k + 8) = (s'.cursor - (s.cursor + k + 10)) % 65536 ∧
-      BytesAt s'.octets (s.cursor + k) (u16be ty) ∧
+      (BytesAt s'.octets (s.cursor + k) (u16be ty) ∧ BytesAt s'.octets (s.cursor + k + 2) (u16be cls) ∧
+        BytesAt s'.octets (s.cursor + k + 4) (u32be ttl)) ∧
       ∃ p sB, writeHintedName hint owner { s with gCtx := .owner } = (.ok p, sB) ∧
         sB.cursor = s.cursor + k ∧ ∀ i, i < sB.cursor → s'.octets[i]? = sB.octets[i]? := by
   rw [addRr_eq] at h
@@ -275,6 +276,22 @@ theorem addRr_item (hint : Hint) (owner : WName) (ty cls ttl : Nat) (rd : List U
         show (writeAt s1.octets s1.cursor (u16be ty))[sB.cursor + i]? = _
         rw [c1] at this ⊢
         exact this
+      have cls4 : BytesAt s4.octets (sB.cursor + 2) (u16be cls) := by
+        intro i hi
+        rw [hl2] at hi
+        rw [e4, pushed_get_lt _ _ _ (by omega), e3]
+        have := bytesAt_writeAt s2.octets s2.cursor (u16be cls) z3 i (by rw [hl2]; exact hi)
+        show (writeAt s2.octets s2.cursor (u16be cls))[sB.cursor + 2 + i]? = _
+        rw [c2] at this ⊢
+        exact this
+      have ttl4 : BytesAt s4.octets (sB.cursor + 4) (u32be ttl) := by
+        intro i hi
+        rw [hl4] at hi
+        rw [e4]
+        have := bytesAt_writeAt s3.octets s3.cursor (u32be ttl) z4 i (by rw [hl4]; exact hi)
+        show (writeAt s3.octets s3.cursor (u32be ttl))[sB.cursor + 4 + i]? = _
+        rw [c3] at this ⊢
+        exact this
       -- the RDATA block
       simp only [M.bind_apply, M.gets_apply] at h
       split at h
@@ -319,12 +336,23 @@ theorem addRr_item (hint : Hint) (owner : WName) (ty cls ttl : Nat) (rd : List U
                   congr 1
                   omega
                 · rw [hs']
-                  show BytesAt (writeAt sH.octets s4.cursor _) _ _
                   rw [show s.cursor + (sB.cursor - s.cursor) = sB.cursor by omega]
-                  intro i hi
-                  rw [hl2] at hi
-                  rw [writeAt_get_lt _ _ _ _ (by omega), preH _ (by omega)]
-                  exact ty4 i (by rw [hl2]; exact hi)
+                  refine ⟨?_, ?_, ?_⟩
+                  · show BytesAt (writeAt sH.octets s4.cursor _) _ _
+                    intro i hi
+                    rw [hl2] at hi
+                    rw [writeAt_get_lt _ _ _ _ (by omega), preH _ (by omega)]
+                    exact ty4 i (by rw [hl2]; exact hi)
+                  · show BytesAt (writeAt sH.octets s4.cursor _) _ _
+                    intro i hi
+                    rw [hl2] at hi
+                    rw [writeAt_get_lt _ _ _ _ (by omega), preH _ (by omega)]
+                    exact cls4 i (by rw [hl2]; exact hi)
+                  · show BytesAt (writeAt sH.octets s4.cursor _) _ _
+                    intro i hi
+                    rw [hl4] at hi
+                    rw [writeAt_get_lt _ _ _ _ (by omega), preH _ (by omega)]
+                    exact ttl4 i (by rw [hl4]; exact hi)
                 · intro i hi
                   rw [hs']
                   show (writeAt sH.octets s4.cursor _)[i]? = _
@@ -368,5 +396,47 @@ theorem addRr_owner_decodes (hint : Hint) (owner : WName) (ty cls ttl : Nat) (rd
     rw [extract_prefix_get _ _ hcsB _ hi, hmsg i (by omega), hpre i hi]
   have hD' : DecodesName msg s.cursor w owner.len (sB.cursor - s.cursor) := ⟨decodes_prefix hagree hD.1, hD.2⟩
   exact ⟨w, sB.cursor - s.cursor, (specDecodeName_iff _ _ _ _ _).mpr hD', by omega, hcase, hexact⟩
+
+
+theorem be16_of_agree {msg o : Bytes} {i c : Nat} (h : ∀ j, j < c → msg[j]? = o[j]?) (hi : i + 1 < c) :
+    be16 msg i = be16 o i := by
+  unfold be16
+  have a0 := h i (by omega)
+  have a1 := h (i + 1) hi
+  rw [Array.getD_eq_getD_getElem?, Array.getD_eq_getD_getElem?, Array.getD_eq_getD_getElem?,
+    Array.getD_eq_getD_getElem?, a0, a1]
+
+theorem be32_of_agree {msg o : Bytes} {i c : Nat} (h : ∀ j, j < c → msg[j]? = o[j]?) (hi : i + 3 < c) :
+    be32 msg i = be32 o i := by
+  unfold be32
+  simp only [Array.getD_eq_getD_getElem?, h i (by omega), h (i + 1) (by omega), h (i + 2) (by omega), h (i + 3) hi]
+
+/-- **the round trip of one record, in every compression mode.** After a successful `add_rr`, on
+    any message that agrees with the buffer below the cursor, the independent decoder reads at the
+    old cursor: the owner (same label count; equal up to ASCII case, octet for octet unless the mode
+    is `Standard`) on `k` octets, then TYPE, CLASS and TTL as given, then an RDLENGTH that is the
+    number of octets written after it (mod 2¹⁶) -/
+theorem addRr_round_trip (hint : Hint) (owner : WName) (ty cls ttl : Nat) (rd : List UInt8) (s s' : State)
+    (hw : WInv s) (hwf : owner.WF) (hh : HintOK s hint owner)
+    (hty : ty < 65536) (hcls : cls < 65536) (httl : ttl < 4294967296)
+    (h : addRr hint owner ty cls ttl rd s = (.ok (), s')) (msg : Bytes)
+    (hmsg : ∀ i, i < s'.cursor → msg[i]? = s'.octets[i]?) :
+    ∃ w k, specDecodeName msg s.cursor = some (w, owner.len, k) ∧ s.cursor + k + 10 ≤ s'.cursor ∧
+      w.map lowerU8 = owner.wire.map lowerU8 ∧ (s.mode ≠ .standard → w = owner.wire) ∧
+      be16 msg (s.cursor + k) = ty ∧ be16 msg (s.cursor + k + 2) = cls ∧ be32 msg (s.cursor + k + 4) = ttl ∧
+      be16 msg (s.cursor + k + 8) = (s'.cursor - (s.cursor + k + 10)) % 65536 := by
+  obtain ⟨w, k, hd, hk10, hcase, hexact⟩ := addRr_owner_decodes hint owner ty cls ttl rd s s' hw hwf hh h msg hmsg
+  obtain ⟨k', hit, hlen, hb, ⟨t1, t2, t3⟩, p, sB, hwn, hcB, hpre⟩ := addRr_item hint owner ty cls ttl rd s s' hw hwf hh h
+  -- both `k`s are the chunk length
+  have hkk : k = k' := by
+    have hcm : ChunkAt msg s.cursor k' :=
+      chunkAt_frame hit.2.1 (fun i _ h2 => hmsg i (by have := hit.2.2; omega))
+    exact specDecodeName_chunk hcm hd
+  subst hkk
+  refine ⟨w, k, hd, hk10, hcase, hexact, ?_, ?_, ?_, ?_⟩
+  · rw [be16_of_agree hmsg (by omega)]; exact be16_of_bytesAt t1 hty
+  · rw [be16_of_agree hmsg (by omega)]; exact be16_of_bytesAt t2 hcls
+  · rw [be32_of_agree hmsg (by omega)]; exact be32_of_bytesAt t3 httl
+  · rw [be16_of_agree hmsg (by omega)]; exact hb
 
 end QV.Writer
